@@ -22,6 +22,14 @@ func init() {
 				r.Rule("R09h", "STORE-EVERY-ROOT: the loop of the from-roots constructor stores a node for every root position it is given, the empty roots included (the addition code requires a node at every root position it merges over)")
 				checkStoreEveryRecord(p, r, "R09h", []string{"NewMapPollardFromRoots"}, 1)
 			}},
+			{ID: "R09l", Statement: "the prune climb ends at the root only", Run: func(p *Program, r *Report) {
+				r.Rule("R09l", "PRUNE-CLIMBS-TO-THE-ROOT: no exit of the loop that climbs from a pruned leaf towards its root depends on a look-up of the node store or the leaf index")
+				checkPruneClimbsToRoot(p, r, "R09l")
+			}},
+			{ID: "R09m", Statement: "remembering a claim stores every calculated node", Run: func(p *Program, r *Report) {
+				r.Rule("R09m", "INGEST-STORES-EVERY-CALCULATED-NODE: the loop of the map forest's storing function that stores the nodes the hashing core calculated stores on every iteration (roots included: a target that is a root needs its keep flag)")
+				checkIngestStoresEveryNode(p, r, "R09m", resolveVerifyAnchors(p).core)
+			}},
 			{ID: "R09k", Statement: "bare roots are flagged by the configuration", Run: func(p *Program, r *Report) {
 				r.Rule("R09k", "ROOTS-FLAGGED-BY-CONFIGURATION: the keep flag the from-roots constructor stores with a root is the forest's configuration (its full argument), not a constant")
 				checkRootsFlaggedByConfiguration(p, r, "R09k", "NewMapPollardFromRoots")
@@ -39,7 +47,7 @@ func init() {
 			}},
 			{ID: "R09f", Statement: "stored positions are in the forest's own layout", Run: func(p *Program, r *Report) {
 				r.Rule("R09f", "LAYOUT: positions reach the node store, the cache index, the proof-position function and position arithmetic only in the coordinate system (tree layout vs TotalRows layout) the accompanying forest height denotes - a hash is stored at its true position")
-				or := runOrderEngine(p, r, "R09f", []string{"(*MapPollard).Ingest", "(*MapPollard).Verify", "(*MapPollard).VerifyPartialProof", "(*MapPollard).Modify", "(*MapPollard).Undo", "(*MapPollard).Prove", "(*MapPollard).Prune", "(*MapPollard).GetMissingPositions"})
+				or := runOrderEngine(p, r, "R09f", []string{"(*MapPollard).Ingest", "(*MapPollard).Verify", "(*MapPollard).VerifyPartialProof", "(*MapPollard).Modify", "(*MapPollard).Undo", "(*MapPollard).Prove", "(*MapPollard).Prune", "(*MapPollard).GetMissingPositions", "NewMapPollardFromRoots"})
 				reportOrderEvents(p, r, or, orderRules{coord: "R09f"})
 				r.Floor("R09f", "layout-checked call sites in the map forest", r.Stats["coord_sites"], 30)
 			}},
